@@ -178,6 +178,12 @@ def run(tier, seed):
                     rep.violation('C13_NoException', {'strategy': c['strategy'], 'exception': type(ex).__name__, 'continued': True, 'via': via},
                                   {'config': str(c), 'limits': [lims, lims3], 'exception': repr(ex)}, what='%s continued via %s with limits %s raised %r' % (name, via, lims3, ex))
             rep.sample({'config': name, 'limits': lims, 'events': [{k: v for k, v in e.items() if k in ('k', 'eok', 'np', 'lens')} for e in events][:8]}, limit=4)
+    # extension beyond the listed properties: the refinement container as a data type (spec/RefContainer.tla), drift reports only
+    try:
+        from harness.drivers import refcontainer_extra
+        refcontainer_extra.run(rep, tier)
+    except Exception as ex:      # the extension never decides the listed property
+        rep.exclude('extension RefContainer.tla not evaluated: %r' % (ex,))
     return conclude(rep, traces, ('C13_',))
 
 
